@@ -15,7 +15,7 @@ RULE = (
     "distinct_nontrivial = distinct (model cell, final call, history signature) tuples"
 )
 REQUIRED = {"calls_monitored": 300, "diff_fresh_vs_history": 40, "diff_fresh_vs_reload": 20, "diff_repeat_reused_settings": 20, "input_snapshots": 200,
-            "final_personalize": 40, "final_estimate": 10, "diff_before_vs_after_history": 20, "diff_refit_vs_its_reload": 4, "cases_with_tiny_prior_std": 5, "diff_repeat_reused_tempered_settings": 8}
+            "final_personalize": 40, "final_estimate": 10, "diff_before_vs_after_history": 20, "diff_refit_vs_its_reload": 4, "cases_with_tiny_prior_std": 5, "diff_repeat_reused_tempered_settings": 8, "benchmark_model_estimates_monitored": 6}
 ASSUMPTIONS = [
     "two models 'hold the same parameters' when their parameter tensors are bit-identical; reload is compared only in that case (exactness of reload is C12's job)",
     "after a fit the model state documentedly keeps the training data; the monitor flags only data / individual values that a personalize / estimate / simulate "
@@ -102,6 +102,41 @@ def run_shard(spec, ctx):
         return dig({"parameters": copy.deepcopy(s.parameters), "seed": s.seed, "name": s.name,
                     "logs": None if getattr(s, "logs", None) is None else repr(sorted(vars(s.logs).items()))})
 
+    # ---- the benchmark models (no state, no sampler): estimate must not touch the ages it is given and answers the same when repeated -----
+    if spec["k"] < 4:
+        try:
+            import warnings as _w
+
+            from leaspy.models import ConstantModel, LMEModel
+            from vf.checks.c20 import gen_lme_cohort, lme_truth
+
+            for j in range(3):
+                rb = ctx.rng("bench", spec["k"], j)
+                slope = bool(j % 2)
+                dfb = gen_lme_cohort(rb, int(rb.integers(6, 15)), lme_truth(rb, slope), one_visit_p=0.0)
+                with _w.catch_warnings():
+                    _w.simplefilter("ignore")
+                    lme = LMEModel("lme", with_random_slope_age=slope)
+                    lme.fit(dfb, "lme_fit")
+                    ipb = lme.personalize(dfb, "lme_personalize")
+                    cst = ConstantModel("constant")
+                    ipc = cst.personalize(dfb, "constant_prediction")
+                for mname, mb, ipx in (("lme", lme, ipb), ("constant", cst, ipc)):
+                    ids_ = list(ipx._indices)[:4]
+                    req = {s_: np.array(sorted(rb.uniform(50, 95, size=int(rb.integers(1, 5)))), dtype=np.float64)[::-1].copy() for s_ in ids_}
+                    req_ref = {k_: v_.copy() for k_, v_ in req.items()}
+                    o1 = {k_: np.asarray(v_).copy() for k_, v_ in mb.estimate(req, ipx).items()}
+                    o2 = {k_: np.asarray(v_).copy() for k_, v_ in mb.estimate(req, ipx).items()}
+                    ctx.count("benchmark_model_estimates_monitored")
+                    ctx.evaluated()
+                    caseb = {"index": -1 - j, "model": [mname], "call": "estimate", "ages": "float64 numpy arrays"}
+                    if any(not np.array_equal(req[k_], req_ref[k_]) for k_ in req_ref):
+                        ctx.violation("api/estimate/caller-inputs-modified", f"{mname} model: estimate modified the arrays of ages passed in", caseb)
+                    elif any(not np.array_equal(o1[k_], o2[k_], equal_nan=True) for k_ in o1):
+                        ctx.violation("api/estimate/repeat-differs", f"{mname} model: the same estimate call repeated gives another answer", caseb)
+        except Exception as e:
+            ctx.note(f"benchmark_block_skipped_{type(e).__name__}", str(e)[:200])
+
     for i in ctx.cases(spec["n"]):
         rng = ctx.rng("hist", spec["k"], i)
         g = GRID[(spec["k"] * 2 + i) % len(GRID)]
@@ -168,12 +203,13 @@ def run_shard(spec, ctx):
             with contextlib.redirect_stdout(io.StringIO()):
                 if what == "estimate":
                     ip = ages["ip"]
-                    tp = {sid: list(ages["t"][sid]) for sid in ages["t"]}
+                    as_arrays = bool((spec["k"] + i) % 2)  # ages as float64 numpy arrays (same numbers): also an input the call must not touch
+                    tp = {sid: (np.array(ages["t"][sid], dtype=np.float64) if as_arrays else list(ages["t"][sid])) for sid in ages["t"]}
                     tp_ref = copy.deepcopy(tp)
                     ip_dig = dig(ip.to_pytorch()[1])
                     res = m.estimate(tp, ip)
                     out = dig({k: np.asarray(v) for k, v in res.items()})
-                    if tp != tp_ref or dig(ip.to_pytorch()[1]) != ip_dig:
+                    if any(not np.array_equal(np.asarray(tp[k_]), np.asarray(tp_ref[k_])) for k_ in tp_ref) or list(tp) != list(tp_ref) or dig(ip.to_pytorch()[1]) != ip_dig:
                         ctx.violation("api/estimate/caller-inputs-modified", "estimate modified the ages dict / individual parameters passed in", case)
                 elif what == "simulate":
                     vp = {"patient_number": 4, "visit_type": "random", "first_visit_mean": 0.0, "first_visit_std": 0.4, "time_follow_up_mean": 4,
@@ -260,6 +296,27 @@ def run_shard(spec, ctx):
             refit = bool((spec["k"] + i) % 4 == 1) and kind != "joint"
             for what in history:
                 do_call(hist, what, who="history-model(intermediate)")
+            if (spec["k"] + i) % 3 == 1:
+                # a call the library refuses half-way (data of another layout than the model's): afterwards the model object must still behave
+                # like one that never saw that call (checked by the final comparisons below)
+                try:
+                    if events:
+                        bad_data = gen.to_dataset(df_new.drop(columns=["EVENT_TIME", "EVENT_BOOL"]), events=False)
+                    else:
+                        from leaspy.io.data import Data as _Data
+
+                        ids_ = list(dict.fromkeys(df_new["ID"]))
+                        ev_df = pd.DataFrame({"ID": ids_, "EVENT_TIME": [90.0 + j_ for j_ in range(len(ids_))], "EVENT_BOOL": [j_ % 2 for j_ in range(len(ids_))]})
+                        bad_data = _Data.from_dataframe(ev_df, data_type="event")
+                    try:
+                        with contextlib.redirect_stdout(io.StringIO()):
+                            hist.personalize(bad_data, "mean_posterior", n_iter=5, n_burn_in_iter=2, seed=3, progress_bar=False)
+                        ctx.count("ill_suited_call_in_history_was_accepted")
+                    except Exception:
+                        ctx.count("refused_calls_in_history")
+                        history = history + ["(refused call)"]
+                except Exception as e:
+                    ctx.note(f"refused_call_setup_{type(e).__name__}", str(e)[:160])
             if refit:
                 # the calibration of the history model is resumed (second fit on the same object) after it was used: whatever it answers
                 # afterwards must be what a model reloaded from its own saved file answers (same parameters, no history)
@@ -282,7 +339,13 @@ def run_shard(spec, ctx):
             for what in finals:
                 case = dict(case0, final=what, history=history)
                 o_fresh = do_call(fresh, what, who="fresh-from-fit")
-                o_hist = do_call(hist, what, who="after-history") if not refit else o_fresh
+                try:
+                    o_hist = do_call(hist, what, who="after-history") if not refit else o_fresh
+                except Exception as e_h:
+                    # the freshly fitted twin just answered this very call: a model that only differs by its history must answer too
+                    ctx.violation(f"api/{what}/result-depends-on-earlier-calls", f"{what}: raises {type(e_h).__name__} ({str(e_h)[:120]}) on the model after {history}, "
+                                  "while the same call succeeds on the freshly fitted model holding the same parameters", case)
+                    continue
                 ctx.count("diff_fresh_vs_history")
                 ctx.count("final_estimate" if what == "estimate" else ("final_simulate" if what.startswith("simulate") else "final_personalize"))
                 key_suffix = "scipy_minimize/start-from-leftover-state" if what == "scipy_minimize" else f"api/{what}/result-depends-on-earlier-calls"
